@@ -212,7 +212,20 @@ func (c *mcase) fresh() int32 { c.tok++; return c.tok }
 
 func (v *mvar) bound() time.Duration { return 50*v.timeout + 200*time.Millisecond }
 
+// retries: how often a refusal of a free lock is repeated before it counts. With a time-out of zero the lock is a
+// try-lock whose timer is already due when the select is entered, so a free lock is refused about every other time
+// (the select picks among two ready cases); a lock that was not released is refused every time.
+func (v *mvar) retries() int {
+	if v.timeout == 0 {
+		return 60
+	}
+	return spuriousRetries
+}
+
 func deadlineClass(el, timeout time.Duration) string {
+	if timeout == 0 {
+		return "zero-timeout"
+	}
 	r := float64(el) / float64(timeout)
 	switch {
 	case r < 1.5:
@@ -316,7 +329,7 @@ func (c *mcase) checkFree(t *rapid.T, vi int, when string) {
 		var got tla.Value
 		var err error
 		c.call(t, v, fmt.Sprintf("%s: observer ReadValue(v%d)", when, vi), false, func() { got, err = v.obs.ReadValue(c.obsIF) })
-		for try := 0; try < spuriousRetries && errors.Is(err, distsys.ErrCriticalSectionAborted); try++ {
+		for try := 0; try < v.retries() && errors.Is(err, distsys.ErrCriticalSectionAborted); try++ {
 			// see access: a stall longer than the time-out can refuse a free lock once
 			vstat.Class("model.spurious-timeout-on-free-lock")
 			c.call(t, v, fmt.Sprintf("%s: observer ReadValue(v%d), repeated", when, vi), false, func() { got, err = v.obs.ReadValue(c.obsIF) })
@@ -429,7 +442,7 @@ func (c *mcase) access(t *rapid.T, a, vi int, desc string, do func(h distsys.Arc
 		// time-out although the lock is free. That is a needless abort, which the property
 		// allows (the Run loop retries the section); a lock that was never released is refused
 		// every time. So a refusal of a free variable is repeated in isolation before it counts.
-		for try := 0; try < spuriousRetries && v.holder == -1 && errors.Is(err, distsys.ErrCriticalSectionAborted); try++ {
+		for try := 0; try < v.retries() && v.holder == -1 && errors.Is(err, distsys.ErrCriticalSectionAborted); try++ {
 			vstat.Class("model.spurious-timeout-on-free-lock")
 			c.logf("   (%s refused although v%d is free; repeating the call, %d)", desc, vi, try+1)
 			c.call(t, v, desc, false, func() { err = do(v.handles[a], c.ifaces[a]) })
@@ -480,7 +493,11 @@ func newModelCase(t *rapid.T) *mcase {
 	for vi := 0; vi < nv; vi++ {
 		v := &mvar{holder: -1}
 		v.kind = rapid.SampledFrom([]int{kScalar, kScalar, kRecord, kTuple}).Draw(t, fmt.Sprintf("v%d.kind", vi))
-		v.timeout = time.Duration(rapid.IntRange(1, 3).Draw(t, fmt.Sprintf("v%d.timeoutMs", vi))) * time.Millisecond
+		// 0 is a legal setting (raftkvs' bootstrap passes it on when a configuration omits sharedResourceTimeout): a try-lock
+		v.timeout = time.Duration(rapid.SampledFrom([]int{0, 1, 1, 2, 2, 3, 3}).Draw(t, fmt.Sprintf("v%d.timeoutMs", vi))) * time.Millisecond
+		if v.timeout == 0 {
+			vstat.Class("model.variable-with-zero-timeout")
+		}
 		v.persistent = rapid.IntRange(0, 3).Draw(t, fmt.Sprintf("v%d.persistent", vi)) == 0
 		k := 1
 		if v.kind != kScalar {
@@ -875,7 +892,7 @@ func TestC07Concurrent(t *testing.T) {
 				initVals[i] = int32(rapid.IntRange(0, 100).Draw(t, "init"))
 				total += int64(initVals[i])
 			}
-			timeouts[i] = time.Duration(rapid.SampledFrom([]int{2, 2, 3, 5, 8, 13, 21, 34, 50}).Draw(t, "timeoutMs")) * time.Millisecond
+			timeouts[i] = time.Duration(rapid.SampledFrom([]int{0, 2, 2, 3, 5, 8, 13, 21, 34, 50}).Draw(t, "timeoutMs")) * time.Millisecond
 			persistent[i] = rapid.IntRange(0, 4).Draw(t, "persistent") == 0
 			mgrs[i] = resources.NewLocalSharedManager(tla.MakeNumber(initVals[i]), resources.WithLocalSharedResourceTimeout(timeouts[i]))
 			fmt.Fprintf(&desc, "%s: initial %d, lock time-out %v, persistent=%v\n", names[i], initVals[i], timeouts[i], persistent[i])
@@ -1090,7 +1107,11 @@ func TestC07Concurrent(t *testing.T) {
 				hung := false
 				// every archetype has ended: a held lock is refused every time; a single
 				// refusal may be a scheduling stall longer than the time-out (see mcase.access)
-				for try := 0; try <= spuriousRetries && !hung; try++ {
+				tries := spuriousRetries
+				if timeouts[i] == 0 {
+					tries = 60 // a try-lock: a free lock is refused about every other time (see mvar.retries)
+				}
+				for try := 0; try <= tries && !hung; try++ {
 					_, _, hung = guarded(func() {
 						_, err = h.ReadValue(throwAwayIFace(90 + i))
 						h.Abort(throwAwayIFace(90 + i))
